@@ -15,3 +15,4 @@ import Pdpy11.Props.C02
 import Pdpy11.Props.C09
 import Pdpy11.Props.C12
 import Pdpy11.Props.C11
+import Pdpy11.Props.C03
